@@ -59,3 +59,7 @@ CLAIMS["C16"] = (
  "runtime monitor with reference model: documents written as YAML by an independent emitter (four styles) and as JSON must read equal; jd's own Yaml()/Json() output read back; real-binary translations and -yaml diff/patch",
  "Held on every executed document: a table of ~190 hostile strings as values and keys (exhaustive x 4 placements), number and integer-literal tables, 20k random hostile documents x 4 emitter styles, and CLI json2yaml|yaml2json, -yaml diff and -yaml -p runs; the key '<<' is the open known finding F16 (defect in the vendored YAML emitter).",
  TB + " incl. the harness's own YAML emitter ref.YamlEmit", "DESIGN.md 5.16")
+CLAIMS["C17"] = (
+ "runtime monitor with reference model on package lib: Diff->Patch in memory and through Render/ReadDiffString judged by lib's Equals and an independent canonical form; diff-empty <=> Equals <=> oracle; real binary with -v2=false",
+ "Held on every executed (a, b, metadata) over 8 metadata sets (random pairs with growing/shrinking/in-place arrays, keyed members, equal-under-reading pairs), all array pairs over {1,2,3} up to length 4 at three positions and as SET/MULTISET, the FuzzJd corpus, and -v2=false diff|patch pipelines.",
+ TB, "DESIGN.md 5.17")
